@@ -249,6 +249,20 @@ def body(chk, db, cfgname):
                 nm, " and as ".join(sorted({"%s index (%s)" % (r, d) for r, d, _ in lst}))), cfgname)
         else:
             r3.ok(site, x.loc(), "%d typed index uses, each variable in one space" % nuse, cfgname)
+    # ================================================================== R4
+    r4 = chk.rule("C10-R4", "the operator is complete: every right block with an image block gets exactly one part (HFrom = right block, HTo = image), no further filter", "F1+F4", 2)
+    from checks.c07 import prepare_signature
+    from pv.throws import Throws
+    thr = Throws(db)
+    for cls in ("Creation", "Annihilation"):
+        g = db.fn("Pomerol::%sOperator::prepare" % cls, nparams=0)
+        site = "Pomerol::%sOperator::prepare:complete" % cls
+        with r4.guard(site, g.loc(), cfgname):
+            sig, problems = prepare_signature(g, thr, cls)
+            if problems:
+                r4.bad(site, g.loc(), "; ".join(problems), cfgname)
+            else:
+                r4.ok(site, g.loc(), "for every RightIndex in [0,NumberOfBlocks) with mapsTo(RightIndex).isCorrect(): one part (H[Right] -> H[Left]) registered in parts and both maps", cfgname)
     chk.undecided.append("{c_i, c+_j} = delta_ij assembled over all blocks; Fock-basis back-transformation equals the Jordan-Wigner matrix (value level); degenerate eigenvectors")
 
 
